@@ -109,11 +109,71 @@ def check_pool(ctx):
                 break
         if bad:
             break
+    # the consumer's own code raises inside the pool's context (not the
+    # mapped function): the exception comes out, every worker terminates and
+    # the pool can be entered again
+    if bad is None:
+        for T in Ts:
+            for n in (T, 2 * T + 3, 3 * T + 7):
+                for after in sorted({0, min(1, n - 1), n - 1}):
+                    n_eval += 1
+
+                    class _Mine(Exception):
+                        pass
+
+                    def consumer_raises(T=T, n=n, after=after):
+                        pool = LazyPool(T)
+                        seen = 0
+                        try:
+                            with pool:
+                                for _ in pool.imap_unordered(
+                                        lambda x: 2 * x, range(n)):
+                                    seen += 1
+                                    if seen > after:
+                                        raise _Mine()
+                        except _Mine:
+                            pass
+                        else:
+                            return "swallowed", None
+                        with pool:
+                            return "raised", list(pool.imap_unordered(
+                                lambda x: 2 * x, range(n)))
+                    st, v = _run(consumer_raises)
+                    if st != "ok" or v[0] != "raised" or collections.Counter(
+                            v[1]) != collections.Counter(
+                                2 * i for i in range(n)):
+                        bad = dict(T=T, n=n, consumer_raises_after=after,
+                                   outcome=st, value=repr(v)[:200])
+                        break
+                if bad:
+                    break
+            if bad:
+                break
+    # a consumer that pauses (6 s) between two results still gets every
+    # result: a worker that finds nothing to do must wait, not give up
+    if bad is None:
+        n_eval += 1
+        T, n = 3, 40
+
+        def slow_consumer():
+            got = []
+            with LazyPool(T) as pool:
+                for y in pool.imap_unordered(lambda x: 2 * x, range(n)):
+                    got.append(y)
+                    if len(got) == 2:
+                        time.sleep(6.0)
+            return got
+        st, v = _run(slow_consumer)
+        if st != "ok" or collections.Counter(v) != collections.Counter(
+                2 * i for i in range(n)):
+            bad = dict(T=T, n=n, consumer_pause_s=6.0, outcome=st,
+                       value=repr(v)[:200])
     time.sleep(0.3)
     leaked = threading.active_count() - base_threads
     out = [C.result(
         "LazyPool with real threads: one result per input, terminates, "
-        "early exit + reuse, failing input raises (no hang)", bad is None,
+        "early exit + reuse, failing input raises (no hang), consumer's own "
+        "exception + reuse, consumer pausing 6 s", bad is None,
         function="imap_unordered", evaluations=n_eval, witness=bad,
         bound=f"T in {Ts}, n around T and 2T+2, all early-exit / failure "
               f"positions sampled, OS scheduling (not all interleavings)")]
